@@ -175,6 +175,46 @@ struct rawlog
 static rawlog  ALLOC_A(0), ALLOC_B(1);
 static rawlog* HOME[3] = {&ALLOC_A, &ALLOC_A, &ALLOC_B};
 
+//=== element types for the smart pointer helpers ===//
+struct boom
+{
+};
+// the (countdown+1)-th construction throws
+struct thrower
+{
+    static int countdown;
+    int        v;
+    thrower() : v(0)
+    {
+        if (countdown-- == 0)
+            throw boom{};
+    }
+    explicit thrower(int x) : v(x)
+    {
+        if (countdown-- == 0)
+            throw boom{};
+    }
+};
+int thrower::countdown = -1;
+
+struct pbase
+{
+    int x = 1;
+    virtual ~pbase() {}
+};
+struct pderived : pbase
+{
+    int y = 2;
+};
+
+// overwrite the dead stack frames below the caller (makes use of a dangling reference into them deterministic)
+__attribute__((noinline)) static void scribble_stack()
+{
+    volatile char junk[8192];
+    for (std::size_t i = 0; i < sizeof junk; ++i)
+        junk[i] = 0;
+}
+
 //=== allocator policies ===//
 inline auto lib_unique(rawlog& r, int v, rawlog*)
 {
@@ -191,6 +231,41 @@ inline auto lib_unique_array(rawlog& r, std::size_t n, rawlog*)
 inline auto lib_unique_array(rawlog& r, std::size_t n, fm::any_allocator*)
 {
     return fm::allocate_unique<int[]>(fm::any_allocator{}, r, n);
+}
+// allocate_unique / allocate_shared with a constructor that throws (k-th element for the array form)
+inline void lib_throwing(int what, rawlog& r, rawlog*)
+{
+    if (what == 0)
+        (void)fm::allocate_unique<thrower>(r, 1);
+    else if (what == 1)
+        (void)fm::allocate_unique<thrower[]>(r, std::size_t(3));
+    else
+        (void)fm::allocate_shared<thrower>(r, 1);
+}
+inline void lib_throwing(int what, rawlog& r, fm::any_allocator*)
+{
+    if (what == 0)
+        (void)fm::allocate_unique<thrower>(fm::any_allocator{}, r, 1);
+    else if (what == 1)
+        (void)fm::allocate_unique<thrower[]>(fm::any_allocator{}, r, std::size_t(3));
+    else
+        (void)std::allocate_shared<thrower>(fm::make_any_std_allocator<thrower>(r), 1);
+}
+// unique_ptr<derived> -> unique_base_ptr<base> (the polymorphic deleter takes its reference from the deleter's
+// get_allocator()), then release through the base pointer
+inline void lib_base_convert(rawlog& r, rawlog*)
+{
+    auto                                d = fm::allocate_unique<pderived>(r);
+    fm::unique_base_ptr<pbase, rawlog> b = std::move(d);
+    scribble_stack();
+    b.reset();
+}
+inline void lib_base_convert(rawlog& r, fm::any_allocator*)
+{
+    auto                                           d = fm::allocate_unique<pderived>(fm::any_allocator{}, r);
+    fm::unique_base_ptr<pbase, fm::any_allocator> b = std::move(d);
+    scribble_stack();
+    b.reset();
 }
 inline std::shared_ptr<int> lib_shared(rawlog& r, int v, rawlog*)
 {
@@ -226,6 +301,20 @@ struct pol_lib
     {
         return lib_shared(r, v, static_cast<Raw*>(nullptr));
     }
+    static void throwing(int what, rawlog& r)
+    {
+        lib_throwing(what, r, static_cast<Raw*>(nullptr));
+    }
+    static void base_convert(rawlog& r)
+    {
+        lib_base_convert(r, static_cast<Raw*>(nullptr));
+    }
+    // a std_allocator built from the (possibly type-erased) allocator object another std_allocator refers to
+    template <class T>
+    static alloc<T> derive(alloc<T>& from)
+    {
+        return alloc<T>(from.get_allocator());
+    }
 };
 
 struct pol_ref
@@ -252,6 +341,13 @@ struct pol_ref
     {
         return std::make_shared<int>(v);
     }
+    static void throwing(int, rawlog&) {}
+    static void base_convert(rawlog&) {}
+    template <class T>
+    static alloc<T> derive(alloc<T>& from)
+    {
+        return from;
+    }
 };
 
 // which allocator object does this std_allocator hand memory to / take memory from? (behavioural probe)
@@ -273,7 +369,8 @@ struct fam_base
 {
     static constexpr bool smart = false, has_splice = false, copyable = true, alloc_ctor = true, has_alloc = true,
                           has_erase = true, has_clear = true, direct = false, differential = true, initial_live = true,
-                          destroyable = true;
+                          destroyable = true, base_convert = false;
+    static constexpr int throw_what = -1, throw_positions = 0; // smart pointer helpers: which helper, how many positions
     template <class P, class C>
     static void init(std::optional<C>& slot, rawlog& home)
     {
@@ -550,6 +647,7 @@ struct F_shared : smart_base<F_shared>
     {
         return "shared_ptr";
     }
+    static constexpr int throw_what = 2, throw_positions = 1;
     template <class P>
     using cont = std::shared_ptr<int>;
     template <class P, class C>
@@ -576,7 +674,8 @@ struct F_unique : smart_base<F_unique>
     {
         return "unique_ptr";
     }
-    static constexpr bool copyable = false;
+    static constexpr bool copyable = false, base_convert = true;
+    static constexpr int  throw_what = 0, throw_positions = 1;
     template <class P>
     using cont = typename P::uptr;
     template <class P, class C>
@@ -603,6 +702,7 @@ struct F_unique_array : smart_base<F_unique_array>
         return "unique_ptr_array";
     }
     static constexpr bool copyable = false;
+    static constexpr int  throw_what = 1, throw_positions = 3;
     template <class P>
     using cont = typename P::uarr;
     template <class P, class C>
@@ -690,12 +790,16 @@ enum opkind
     K_MOVE_CONSTRUCT_ALLOC,
     K_ALLOC2, // direct family only: allocate(2)
     K_ALLOC0, // direct family only: allocate(0)
+    K_DERIVE, // direct family only: ci = std_allocator(cj.get_allocator())
+    K_THROW,  // smart pointer helpers only: allocate_unique/allocate_shared whose (j+1)-th construction throws
+    K_BASE,   // unique_ptr only: unique_ptr<derived> -> unique_base_ptr<base>, release
     K_COUNT
 };
 static const char* KNAME[K_COUNT] = {"insert",         "erase_first",    "clear",   "copy_assign",          "move_assign",
                                      "swap",           "splice",         "copy_construct", "move_construct", "destroy",
                                      "copy_construct_with_home_allocator", "move_construct_with_home_allocator",
-                                     "allocate2",      "allocate0"};
+                                     "allocate2",      "allocate0", "construct_from_get_allocator",
+                                     "create_with_throwing_constructor", "convert_to_base_ptr_and_release"};
 
 inline int op_code(int k, int i, int j)
 {
@@ -722,7 +826,10 @@ static std::string op_text(int code, bool direct = false)
     case K_DESTROY:
     case K_ALLOC2:
     case K_ALLOC0:
+    case K_BASE:
         return fmt("%s(c%d)", n, i);
+    case K_THROW:
+        return fmt("%s(home allocator of c%d, construction %d throws)", n, i, j + 1);
     case K_SWAP:
     case K_SPLICE:
         return fmt("%s(c%d,c%d)", n, i, j);
@@ -733,7 +840,7 @@ static std::string op_text(int code, bool direct = false)
 inline bool two_slot(int k)
 {
     return k == K_COPY_ASSIGN || k == K_MOVE_ASSIGN || k == K_SWAP || k == K_SPLICE || k == K_COPY_CONSTRUCT
-           || k == K_MOVE_CONSTRUCT || k == K_COPY_CONSTRUCT_ALLOC || k == K_MOVE_CONSTRUCT_ALLOC;
+           || k == K_MOVE_CONSTRUCT || k == K_COPY_CONSTRUCT_ALLOC || k == K_MOVE_CONSTRUCT_ALLOC || k == K_DERIVE;
 }
 
 template <class F, class P>
@@ -787,6 +894,46 @@ void apply(world<F, P>& w, int k, int i, int j, int v)
         {
             auto& s = *w.c[i];
             C::blocks().push_back({s.a.allocate(0), 0, s.a});
+        }
+        break;
+    case K_DERIVE:
+        if constexpr (F::direct)
+            w.c[i].emplace(P::template derive<int>(w.c[j]->a));
+        break;
+    case K_THROW:
+        if constexpr (F::throw_positions > 0)
+        {
+            std::size_t before = E.live.size();
+            bool        thrown = false;
+            thrower::countdown = j;
+            try
+            {
+                P::throwing(F::throw_what, home);
+            }
+            catch (boom&)
+            {
+                thrown = true;
+            }
+            thrower::countdown = -1;
+            if (!P::reference)
+            {
+                if (!thrown)
+                    add_viol("exception-swallowed", "the exception of the element constructor did not reach the caller");
+                if (E.live.size() != before)
+                    add_viol("leak-after-throwing-constructor",
+                             fmt("%zu block(s) obtained for the request stayed outstanding after the constructor threw "
+                                 "(nobody owns them any more)",
+                                 E.live.size() - before));
+            }
+        }
+        break;
+    case K_BASE:
+        if constexpr (F::base_convert)
+        {
+            std::size_t before = E.live.size();
+            P::base_convert(home);
+            if (!P::reference && E.live.size() != before)
+                add_viol("outstanding", "the object released through unique_base_ptr stayed outstanding");
         }
         break;
     case K_ERASE:
@@ -977,6 +1124,13 @@ void enabled_ops(world<F, PT>& w, state_info<F, PT>& si, prog_out& out)
                 case K_ALLOC0:
                     ok = F::direct;
                     break;
+                case K_BASE:
+                    ok = F::base_convert;
+                    break;
+                case K_THROW:
+                    for (int pos = 0; pos < F::throw_positions; ++pos)
+                        out.enabled.push_back(op_code(k, i, pos));
+                    break;
                 }
                 if (ok)
                     out.enabled.push_back(op_code(k, i, 0));
@@ -1018,6 +1172,9 @@ void enabled_ops(world<F, PT>& w, state_info<F, PT>& si, prog_out& out)
                 case K_MOVE_CONSTRUCT_ALLOC:
                     ok = !live[i] && live[j] && F::alloc_ctor;
                     break;
+                case K_DERIVE:
+                    ok = F::direct;
+                    break;
                 }
                 if (ok)
                     out.enabled.push_back(op_code(k, i, j));
@@ -1045,9 +1202,31 @@ void run_program_body(const std::vector<int>& ops, prog_out& out)
     state_info<F, PT> si;
     hasher            sig;
     bool              stop = false;
+    int               last_k = -1, last_i = 0, last_j = 0, prev_owner[3] = {-1, -1, -1};
 
     auto observe = [&](int step) {
         check_state(*wt, si, out, tag_feq, tag_oth);
+        if constexpr (F::has_alloc)
+            if (step > 0)
+            {
+                // a std_allocator keeps referring to its allocator object unless it is itself assigned / swapped /
+                // (re)constructed; operations on OTHER objects must not re-route it
+                for (int s = 0; s < 3; ++s)
+                {
+                    bool touched = (s == last_i && two_slot(last_k)) || (s == last_i && last_k == K_DESTROY)
+                                   || (s == last_j && (last_k == K_SWAP || last_k == K_MOVE_ASSIGN || last_k == K_MOVE_CONSTRUCT
+                                                       || last_k == K_MOVE_CONSTRUCT_ALLOC));
+                    if (!touched && wt->c[s] && prev_owner[s] >= 0 && si.owner[s] != prev_owner[s])
+                        add_viol("allocator-rebound",
+                                 fmt("the allocator of c%d referred to allocator object %c and now hands memory to object %c "
+                                     "although step %d did not assign, swap or construct it",
+                                     s, rawlog::name_of(prev_owner[s]), rawlog::name_of(si.owner[s]), step));
+                }
+                if (last_k == K_DERIVE && si.owner[last_i] != prev_owner[last_j])
+                    add_viol("allocator-rebound",
+                             fmt("an allocator constructed from c%d.get_allocator() (object %c) refers to object %c", last_j,
+                                 rawlog::name_of(prev_owner[last_j]), rawlog::name_of(si.owner[last_i])));
+            }
         if (F::differential)
         {
             std::vector<long> a, b;
@@ -1105,9 +1284,12 @@ void run_program_body(const std::vector<int>& ops, prog_out& out)
                 // plain copy/move construction involves only the source's allocator
                 if (k != K_COPY_CONSTRUCT && k != K_MOVE_CONSTRUCT && oi != oj)
                 {
-                    cross     = true;
-                    lib_equal = home ? (PT::template make<typename F::value>(*HOME[i]) == F::get_alloc(*wt->c[j]))
-                                     : si.lib_eq[i][j];
+                    cross = true;
+                    // assigning / swapping / deriving the allocator objects themselves (direct family) does not
+                    // depend on their equality: only containers consult == in these operations
+                    lib_equal = F::direct ? false
+                                : home    ? (PT::template make<typename F::value>(*HOME[i]) == F::get_alloc(*wt->c[j]))
+                                          : si.lib_eq[i][j];
                 }
             }
         }
@@ -1129,6 +1311,11 @@ void run_program_body(const std::vector<int>& ops, prog_out& out)
                 E.tainted = true; // operation between allocators that FALSELY compare equal: what follows may be its consequence
         }
         sig.word(u64(k) * 2 + (cross ? 1 : 0));
+        last_k = k;
+        last_i = i;
+        last_j = j;
+        for (int s = 0; s < 3; ++s)
+            prev_owner[s] = si.owner[s];
         apply(*wt, k, i, j, step);
         if (F::differential)
             apply(*wr, k, i, j, step);
